@@ -1587,11 +1587,11 @@ def _dump_qcschema_molecule(f: TextIO, data: IOData) -> dict:
             molecule_dict["fragments"] = [
                 fragment.tolist() for fragment in data.extra["molecule"]["fragments"]["indices"]
             ]
-        if "indices" in data.extra["molecule"]["fragments"]:
+        if "charges" in data.extra["molecule"]["fragments"]:
             molecule_dict["fragment_charges"] = data.extra["molecule"]["fragments"][
                 "charges"
             ].tolist()
-        if "indices" in data.extra["molecule"]["fragments"]:
+        if "multiplicities" in data.extra["molecule"]["fragments"]:
             molecule_dict["fragment_multiplicities"] = data.extra["molecule"]["fragments"][
                 "multiplicities"
             ].tolist()
